@@ -4,6 +4,7 @@ import (
 	"encoding/json"
 	"fmt"
 	"os"
+	"regexp"
 	"strings"
 
 	"verif/internal/cdrive"
@@ -93,7 +94,7 @@ func replay(path string) {
 		}
 		text := fmt.Sprintf("  history %v then %s (%s)\n  first diverging item after call %d: %s\n    generated C : %s\n    Wuffs source: %s\n", w.History, w.Call.String(), cfg.Name, div.Call, div.Label, div.C, div.Interp)
 		if div.Problem != "" {
-			text += "  the C driver did not finish the history: " + strings.ReplaceAll(div.Problem, "\n", "\n    ") + "\n"
+			text += "  the C driver did not finish the history: " + strings.ReplaceAll(stableText(div.Problem), "\n", "\n    ") + "\n"
 		}
 		return signature(pi, div.Label), text
 	}
@@ -113,3 +114,8 @@ func replay(path string) {
 	}
 	fmt.Printf("  not reproduced (observed %q)\n", s1)
 }
+
+var unstableRe = regexp.MustCompile(`0x[0-9a-fA-F]+|==\d+==|pid \d+|T\d+\)|/dev/shm/[^ :)]*`)
+
+// stableText removes what differs between two runs of a dying driver (addresses, pids, scratch paths).
+func stableText(s string) string { return unstableRe.ReplaceAllString(s, "_") }
